@@ -113,6 +113,15 @@ func (env *exprEnv) trGoal(x *Expr) typedTerm {
 			a := env.trGoal(x.args[0])
 			b := env.trGoal(x.args[1])
 			return typedTerm{t: and(a.t, b.t), typ: tBool}
+		case "==":
+			// b == (forall ...) is proved as two implications, so that the quantifier is skolemized in one
+			// direction and instantiated in the other (solvers do poorly on an equality with a quantified side)
+			if x.args[0].op == "forall" || x.args[1].op == "forall" {
+				imp := func(a, b *Expr) *Expr { return &Expr{op: "binary", name: "==>", args: []*Expr{a, b}} }
+				l := env.trGoal(imp(x.args[0], x.args[1]))
+				r := env.trGoal(imp(x.args[1], x.args[0]))
+				return typedTerm{t: and(l.t, r.t), typ: tBool}
+			}
 		}
 	case "forall":
 		if len(x.vars) == 1 && isInteger(env.resolveType(x.vars[0].typ)) && env.skNext < len(env.goalSk) {
@@ -562,6 +571,23 @@ func (env *exprEnv) call(x *Expr) typedTerm {
 				}
 			}
 			return env.fail("no Ecosystem type in this package")
+		case "mk":
+			// mk(StructType, field values in declaration order): a struct value
+			if len(argEs) >= 1 && argEs[0].op == "ident" {
+				t := env.resolveType(argEs[0].name)
+				if st, nt := structOf(t); st != nil && st.NumFields() == len(argEs)-1 {
+					srt := g.sortOf(nt)
+					var fs []string
+					for _, a := range argEs[1:] {
+						fs = append(fs, env.tr(a).t)
+					}
+					if len(fs) == 0 {
+						return typedTerm{t: "mk_" + srt, typ: t}
+					}
+					return typedTerm{t: "(mk_" + srt + " " + strings.Join(fs, " ") + ")", typ: t}
+				}
+			}
+			return env.fail("mk(Type, fields...) expects a struct type and all its fields")
 		case "trigger":
 			var grp []Term
 			for _, a := range argEs {
